@@ -64,6 +64,51 @@ func main() {
 		fmt.Println(string(b2))
 		return
 	}
+	if mode == "sysfont" {
+		// first use of the lazily built system font list from n goroutines at once, while one goroutine (re)builds the
+		// list through CacheSystemFonts from a directory with one font: every lookup returns either answer of the solo run
+		dir, err := os.MkdirTemp("", "vrace-fonts-")
+		if err != nil {
+			fmt.Println(`{"mode":"sysfont","error":"tmp dir"}`)
+			os.Exit(3)
+		}
+		defer os.RemoveAll(dir)
+		if b, err := os.ReadFile("/repo/resources/DejaVuSerif.ttf"); err == nil {
+			os.WriteFile(dir+"/DejaVuSerif.ttf", b, 0o644)
+		}
+		res := make([]string, n)
+		var wg sync.WaitGroup
+		for i := 0; i < n; i++ {
+			wg.Add(1)
+			go func(i int) {
+				defer wg.Done()
+				if i == n/2 {
+					if err := canvas.CacheSystemFonts(dir+"/cache.bin", []string{dir}); err != nil {
+						res[i] = "cache-err:" + err.Error()
+						return
+					}
+				}
+				f, ok := canvas.FindSystemFont("DejaVu Serif", canvas.FontRegular)
+				res[i] = fmt.Sprint(ok, " ", f)
+			}(i)
+		}
+		wg.Wait()
+		seen := map[string]bool{}
+		for _, r := range res {
+			seen[r] = true
+			if len(r) > 9 && r[:9] == "cache-err" {
+				o.Mismatches = append(o.Mismatches, r)
+			}
+		}
+		o.Distinct = len(seen)
+		// after the cache was installed every lookup must find the font of that directory
+		if f, ok := canvas.FindSystemFont("DejaVu Serif", canvas.FontRegular); !ok || f != dir+"/DejaVuSerif.ttf" {
+			o.Mismatches = append(o.Mismatches, fmt.Sprintf("after CacheSystemFonts the lookup returns %q %v", f, ok))
+		}
+		b2, _ := json.Marshal(o)
+		fmt.Println(string(b2))
+		return
+	}
 	kinds := map[string]string{"mixed": "gtfrs", "geometry": "g", "text": "t", "backends": "s"}[mode]
 	jobs := workload.Jobs(seed, n, kinds)
 	solo := make([]string, len(jobs))
